@@ -20,7 +20,13 @@ TV      harness `zone hostile`: structured families ($INCLUDE in all 128 case va
         tokens / comments / parenthesised runs of 511..10^6 octets) observed under recover(); `zone prefixes`:
         every prefix (cut after every character) of every record text of harness/lib/zoo (77 RR types, ~19.6 k
         texts: as is, + newline, and at token boundaries + blank / parenthesis / comment / quote) through
-        NewZoneParser(...).Next() and dns.ReadRR under the same guards (all of them in both tiers: 3 s); the histories
+        NewZoneParser(...).Next() and dns.ReadRR under the same guards (all of them in both tiers: 3 s); `zone insertions`:
+        " )", " (", ")", "(", " ( ", " ) (", an unterminated quote, " ( )", " ;)" inserted at every token boundary of the RDATA
+        of every zoo record + a second record (and a lone backslash / open parenthesis at end of input): ~4 k texts,
+        classified by Gen_Present (Mode "file"), replayed like the generated texts: ill-formed => an error is due;
+        every parse runs under a hang watchdog (20 s, re-run up to 3 times in fresh goroutines; a reproducible hang is
+        recorded as zone/hostile:hang:<family>[:<TYPE>] and the harness process then ends, skipping its remaining cases);
+        $GENERATE widths 3..3000000 with the allocation guard and the spec's verdict (width <= 255); the histories
         next -> rr | err | eof, open(path) of those runs and of a sample of the generated texts are
         validated by Trace_Zone's sticky-error machine (blocking), and wherever a family text spells
         abstract lines the per-line events are judged by Zone.tla (error due or not, records).
@@ -32,10 +38,12 @@ Mutants (checks/mutants/C07/*.diff, run like C06's; exit 1 with seed 1 unless no
   generate-nesting-not-propagated  sub-parser of $GENERATE may $GENERATE     families nested-generate (TLC confirms the text is a nested $GENERATE): ill-formed-accepted:nested-generate
   generate-range-guard-off-by-one  0-65536 accepted                          families generate: zone/hostile:gen>65536; Gen_Zone "gen"/shapes in C06: zone/accepts:generate:range>65536
   parse-error-not-sticky           Next goes on after an error               harness (not-sticky) + Trace_Zone (zone/sticky:next:rr, :next:err)
-  (seeded C07-2: LOC altitude parser indexes an empty token at end of input -> prefixes: zone/hostile:panic:prefix:LOC)
-  lexer-error-not-sticky           zlexer.Next goes on after l.err           NOT caught (exit 0) and cannot be: at the ZoneParser API the parser's own parseErr is sticky one
-                                                                             level up; the only path that swallows a lexer error ($INCLUDE f ")", the known finding) gets
-                                                                             an error with this mutant, i.e. it behaves better than the pinned code there.
+  lexer-error-not-sticky           zlexer.Next goes on after l.err           prefixes: zone/hostile:hang:prefix:APL (= seeded C07-4: with "(" open at end of input the lexer returns
+                                                                             its error token for ever and the APL / SVCB rdata loops never end) -- I had first judged this
+                                                                             mutant unobservable; the hang watchdog ends the harness process after reporting
+  seeded C07-2 (LOC altitude indexes an empty token at end of input)         prefixes: zone/hostile:panic:prefix:LOC
+  seeded C07-5 (endingToTxtSlice ignores l.err)                              insertions: zone/hostile:ill-formed-accepted:close:TXT etc.
+  seeded C07-6 ($GENERATE width parsed with Atoi)                            families generate-width: zone/hostile-line:generate (spec: width > 255 is an error), zone/hostile:alloc:generate
 
 Findings on the unchanged tree: known-findings.d/C07.txt.
 """
@@ -80,7 +88,7 @@ def validate(ctx, path, what):
 def texts(ctx, binp, n, nshards, shards, par=4):
     def one(sh):
         r, _ = ctx.tlc_vectors("Gen_Present", workers=1 if nshards > 1 else 4, xmx="3g", timeout=3000,
-                               consts={"N": n, "Shard": sh, "NShards": nshards})
+                               consts={"N": n, "Shard": sh, "NShards": nshards, "Mode": '"enum"'})
         path = os.path.join(r.dir, "vectors.ndjson")
         hist = os.path.join(r.dir, "history.ndjson")
         s = ctx.run_json(binp, ["replay", path, "", hist], timeout=3000)
@@ -115,6 +123,23 @@ def prefixes(ctx, binp):
     return s
 
 
+def insertions(ctx, binp):
+    """A stray parenthesis / unterminated quote / lone backslash inserted at every token boundary of the RDATA of every
+    zoo record, followed by a second record.  The harness only writes the texts; Gen_Present classifies them (an
+    insertion may fall inside a quoted string); lexically ill-formed => the parser must report an error (the pinned
+    failure mode: the record is returned, Err() is nil and the rest of the zone is lost)."""
+    tx = os.path.join(ctx.out, "insertion-texts.ndjson")
+    s0 = ctx.run_json(binp, ["insertions", tx], timeout=600)
+    r, _ = ctx.tlc_vectors("Gen_Present", workers=2, xmx="3g", timeout=3000, files={"texts.ndjson": open(tx).read()},
+                           consts={"N": 0, "Shard": 0, "NShards": 1, "Mode": '"file"'})
+    path = os.path.join(r.dir, "vectors.ndjson")
+    hist = os.path.join(r.dir, "history.ndjson")
+    s = ctx.run_json(binp, ["replay", path, "", hist], timeout=3000)
+    s.setdefault("notes", {})["insertion_texts"] = s0["notes"]["texts"]
+    vp.absorb(ctx, s)
+    validate(ctx, hist, "insertion text")
+
+
 def families(ctx, binp):
     out = os.path.join(ctx.out, "families.ndjson")
     s = ctx.run_json(binp, ["hostile", out], timeout=3000)
@@ -135,6 +160,7 @@ def run(ctx):
             lambda: shapes(ctx, binp),
             lambda: families(ctx, binp),
             lambda: prefixes(ctx, binp),
+            lambda: insertions(ctx, binp),
         ])
     else:
         vp.parallel([
@@ -143,6 +169,7 @@ def run(ctx):
             lambda: shapes(ctx, binp),
             lambda: families(ctx, binp),
             lambda: prefixes(ctx, binp),
+            lambda: insertions(ctx, binp),
         ])
         texts(ctx, binp, 6, 11, range(11), par=11)
         texts(ctx, binp, 7, 121, rnd.sample(range(121), 12), par=12)
